@@ -54,6 +54,12 @@ func c15Specs() []c15Spec {
 		{name: "S-C", desc: "2 connections starting up with different users while GlobalParameters are configured, then a Query whose handler reads client / server parameters",
 			global: wire.Parameters{"a": "1", "server_version": "9"},
 			conns:  []c15Conn{{"c1", [][]byte{st("u1"), pgproto.Query("whoami")}}, {"c2", [][]byte{st("u2"), pgproto.Query("whoami")}}}},
+		{name: "S-K", desc: "as S-C with 3 configured global parameters (the ParameterStatus block has another length)",
+			global: wire.Parameters{"a": "1", "b": "2", "c": "3"},
+			conns:  []c15Conn{{"c1", [][]byte{st("u1"), pgproto.Query("whoami")}}, {"c2", [][]byte{st("user2"), pgproto.Query("whoami")}}}},
+		{name: "S-L", desc: "as S-C with 7 configured global parameters and user names of different lengths",
+			global: wire.Parameters{"a": "1", "b": "2", "c": "3", "d": "4", "e": "5", "f": "6", "g": "7"},
+			conns:  []c15Conn{{"c1", [][]byte{st("u1"), pgproto.Query("whoami")}}, {"c2", [][]byte{st("a-much-longer-user-name"), pgproto.Query("whoami")}}}},
 		{name: "S-D", desc: "3 connections mixing a typed row, an extended batch with shared names and a parameter-reading handler",
 			global: wire.Parameters{"a": "1"},
 			conns:  []c15Conn{{"c1", [][]byte{st("u1"), pgproto.Query("int4row")}}, {"c2", append([][]byte{st("u2")}, ext("2:p,c=Q1", "vv")...)}, {"c3", [][]byte{st("u3"), pgproto.Query("whoami")}}}},
@@ -317,7 +323,7 @@ func init() {
 		for _, sp := range c15Specs() {
 			bound := 2
 			switch {
-			case tier != "thorough" && (sp.name == "S-D" || sp.name == "S-E" || sp.name == "S-J"):
+			case tier != "thorough" && (sp.name == "S-D" || sp.name == "S-E" || sp.name == "S-J" || sp.name == "S-K" || sp.name == "S-L"):
 				continue
 			case tier != "thorough" && sp.name == "S-H":
 				bound = 1
@@ -339,10 +345,14 @@ func init() {
 		}
 		var out []Plan
 		for _, sp := range c15Specs() {
-			if sp.name == "S-C" || sp.name == "S-G" {
+			if sp.name == "S-C" || sp.name == "S-G" || sp.name == "S-K" || sp.name == "S-L" {
 				sc := c15Scenario(sp)
 				sc.Property = "C12"
-				out = append(out, Plan{Sc: sc, Bound: bound})
+				b := bound
+				if (sp.name == "S-K" || sp.name == "S-L") && tier == "thorough" {
+					b = 3
+				}
+				out = append(out, Plan{Sc: sc, Bound: b})
 			}
 		}
 		return out
